@@ -30,10 +30,11 @@ type CallSite struct {
 }
 
 type StoreSite struct {
-	Instr    *ssa.Store
-	Fn       *ssa.Function
-	Reach    string
-	Ref, Off string
+	Instr     *ssa.Store
+	Fn        *ssa.Function
+	Reach     string
+	Ref, Off  string
+	MemBefore string
 }
 
 type MapUpdateSite struct {
